@@ -142,7 +142,8 @@ AllGroups == {
   G("t-odd-sweep",   {"openodd"}, {}, {"Save"}, Reg, "sweep", 400, 128, 2, 1),
   G("t-spelt-sweep", {"para", "midimage"}, {}, {"Save"}, PathForms, "sweep", 60, 16, 1, 1),
   GC("t-conc",       {"para", "table", "image", "openmin", "openrich", "openodd", "longtext", "midimage"}, Reg \cup {"resave", "vialink"}, 40, {1, 2, 3, 7}, 1),
-  G("t-opened",      {"openmin", "openrich", "openodd", "heading", "para", "style", "list", "footnote", "header", "title"}, {}, {"Save"}, {"newdir", "existing", "device", "resave"}, "none", 0, 0, 3, 2),
+  G("t-opened-odd",  {"openodd", "heading", "para", "style", "footnote"}, {}, {"Save"}, {"newdir", "existing", "device", "resave"}, "none", 0, 0, 2, 2),
+  G("t-opened",      {"openmin", "openrich", "heading", "para", "style", "list", "footnote", "header", "title"}, {}, {"Save"}, {"newdir", "existing", "device", "resave"}, "none", 0, 0, 3, 2),
   G("t-random",      AllDoc, {}, {"Save"}, {"newdir", "existing", "device", "resave"}, "sweep", 400, 128, 8, 3)}
 Groups == {x \in AllGroups : x.g \in GroupNames}
 
